@@ -3,6 +3,9 @@ package work
 import (
 	"bytes"
 	"fmt"
+	"hash/adler32"
+	"hash/crc32"
+	"hash/fnv"
 	"math/rand/v2"
 	"reflect"
 	"strings"
@@ -132,6 +135,47 @@ func c19OwnCodec(c *core.Ctx, idx int) {
 	rec.NonTrivial(core.Hash64("own", name, fmt.Sprint(idx)))
 }
 
+// c19CollisionsOnce: pairs of distinct strings that common 32-bit string hashes cannot tell apart
+// (FNV-1 and FNV-1a, CRC-32 with both usual polynomials, Adler-32, the multiply-by-31 hash), found
+// once per process by a birthday search over generated words. A table keyed by such a hash instead
+// of the string itself confuses exactly these.
+var c19CollisionsOnce = sync.OnceValue(func() [][2]string {
+	hashes := []func(string) uint32{
+		func(s string) uint32 { h := fnv.New32(); h.Write([]byte(s)); return h.Sum32() },
+		func(s string) uint32 { h := fnv.New32a(); h.Write([]byte(s)); return h.Sum32() },
+		func(s string) uint32 { return crc32.ChecksumIEEE([]byte(s)) },
+		func(s string) uint32 { return crc32.Checksum([]byte(s), crc32.MakeTable(crc32.Castagnoli)) },
+		func(s string) uint32 { return adler32.Checksum([]byte(s)) },
+		func(s string) uint32 {
+			var h uint32
+			for i := 0; i < len(s); i++ {
+				h = h*31 + uint32(s[i])
+			}
+			return h
+		},
+	}
+	out := [][2]string{{"costarring", "liquid"}, {"declinate", "macallums"}, {"altarage", "zinke"}} // FNV-1a, well known
+	r := rand.New(rand.NewPCG(19, 19))
+	for _, hf := range hashes {
+		seen := map[uint32]string{}
+		found := 0
+		for i := 0; i < 400000 && found < 3; i++ {
+			b := make([]byte, 5+r.IntN(6))
+			for j := range b {
+				b[j] = byte('a' + r.IntN(26))
+			}
+			s := string(b)
+			h := hf(s)
+			if o, ok := seen[h]; ok && o != s {
+				out = append(out, [2]string{o, s})
+				found++
+			}
+			seen[h] = s
+		}
+	}
+	return out
+})
+
 func c19Vocab(r *rand.Rand) []string {
 	v := []string{"", "a", "ab", "abc", "abcd", "\x00", "\x00\x00", "héllo", "\xff\xfe", strings.Repeat("k", 127), strings.Repeat("k", 128), strings.Repeat("prefix-", 8), strings.Repeat("prefix-", 8) + "x", strings.Repeat("L", 5000)}
 	for i := 0; i < 6; i++ {
@@ -140,6 +184,10 @@ func c19Vocab(r *rand.Rand) []string {
 			b[j] = byte(r.IntN(256))
 		}
 		v = append(v, string(b))
+	}
+	for i := 0; i < 3; i++ {
+		pair := c19CollisionsOnce()[r.IntN(len(c19CollisionsOnce()))]
+		v = append(v, pair[0], pair[1])
 	}
 	return v
 }
